@@ -6,5 +6,5 @@ git -C /repo worktree add --detach $wt HEAD >/dev/null 2>&1 || exit 2
 (cd /repo && find . -name contracts_verif.go | while read f; do cp $f $wt/$f; done)
 (cd $wt && git apply "$1") || { echo "patch does not apply"; git -C /repo worktree remove --force $wt; exit 2; }
 shift; f="$1"; shift
-/verif/bin/qv verify -repo $wt -f "$f" "$@" 2>&1 | grep -v "^    tried\|^WARNING" | tail -14
+${QV_BIN:-/verif/bin/qv} verify -repo $wt -f "$f" "$@" 2>&1 | grep -v "^    tried\|^WARNING" | tail -14
 git -C /repo worktree remove --force $wt
